@@ -6,6 +6,7 @@ import time
 import subprocess
 import mirror
 import locate
+import lint
 from lex import lex, strip_attrs, texts, LexError
 
 REPO = os.environ.get('VERIF_REPO', '/repo')
@@ -24,7 +25,7 @@ ASSUME_PATTERNS = [
 ]
 
 FAIL_KINDS = [
-    'postcondition not satisfied', 'precondition not satisfied', 'assertion failed', 'possible arithmetic underflow/overflow',
+    'postcondition not satisfied', 'precondition not satisfied', 'precondition not met', 'assertion failed', 'possible arithmetic underflow/overflow',
     'invariant not satisfied', 'decreases not satisfied', 'possible division by zero', 'possible bit shift underflow/overflow',
     'loop invariant', 'could not prove termination', 'assert_by_compute', 'assertion failed', 'bit shift', 'possible truncation',
     'failed this postcondition', 'index out of bounds', 'unreachable', 'call to non-static function', 'may panic',
@@ -109,9 +110,16 @@ def build(vrs_path, out_dir, canary=True, vacuity=False):
                 res.status = 'undecided'
                 res.reason = 'TOOL: %s' % e
                 return res, None
+            issues = lint.lint_region(reg)
+            if issues:
+                res.status = 'undecided'
+                res.reason = 'TOOL: annotation purity lint: non-specification text inside an annotation of %s: %s' % (reg.name, '; '.join(t for (_, t) in issues[:3]))
+                return res, None
             for seg in reg.segs:
                 if seg['kind'] == 'annot':
                     _scan_assumptions(seg['text'], reg.name, 0, res.assumptions)
+                elif seg['kind'] == 'rw':
+                    _scan_assumptions(''.join(mirror.GHOST_BLOCK.findall(seg['text'])), reg.name, 0, res.assumptions)
             if vacuity and reg.path.split()[-2] == 'fn':
                 woven = _insert_vacuity_probe(woven)
             if not woven.endswith('\n'):
